@@ -10,7 +10,7 @@ OUT=/tmp/seed-regress-out-$$
 git -C /repo worktree add -q --detach $WT HEAD || exit 2
 trap 'git -C /repo worktree remove --force $WT >/dev/null 2>&1; rm -rf $OUT' EXIT
 mkdir -p $OUT; cp /verif/known_findings.json $OUT/
-IDS="${*:-$(ls /verif/seeded | sort)}"
+IDS="${*:-$(ls -d /verif/seeded/*/ | xargs -n1 basename | sort)}"
 miss=0
 for id in $IDS; do
   d=/verif/seeded/$id
